@@ -132,6 +132,9 @@ def escCppW (c : Nat) : Text :=
 
 def enc_cppw (s : Text) : Res Text := stripped ([76, 34] ++ s.flatMap escCppW ++ [34])
 
+/-- one byte as a fixed-width octal escape: `f"\\{byte:03o}"` -/
+def octEsc (b : Nat) : Text := 92 :: fmtOct3 b
+
 def escCppN (c : Nat) : Res Text :=
   if c = 7 then .ok [92, 97]
   else if c = 8 then .ok [92, 98]
@@ -144,15 +147,15 @@ def escCppN (c : Nat) : Res Text :=
   else if c = 92 then .ok [92, 92]
   else if c < 32 then .ok (92 :: fmtOct3 c)
   else if c ≤ 127 then .ok [c]
-  else .err "ValueError"
+  else if 0xD800 ≤ c ∧ c ≤ 0xDFFF then .err "ValueError"
+  else .ok ((utf8cp c).flatMap octEsc)
 
-/-- `@require(all(ord(character) <= 127 …))` first, then the loop. -/
+/-- The narrow `string_literal`: the loop only (the ASCII-only `@require` was removed by the repair of C02-F2;
+non-ASCII characters are written as the octal escapes of their UTF-8 bytes, a surrogate raises `ValueError`). -/
 def enc_cppn (s : Text) : Res Text :=
-  if s.all (fun c => decide (c ≤ 127)) then
-    match mapRes escCppN s with
-    | .err e => .err e
-    | .ok b => stripped ([34] ++ b ++ [34])
-  else .err "ViolationError"
+  match mapRes escCppN s with
+  | .err e => .err e
+  | .ok b => stripped ([34] ++ b ++ [34])
 
 /-- body of `wchar_literal` for one character -/
 def wcharOne (c : Nat) : Res Text :=
